@@ -1,7 +1,7 @@
 (* C01 — every IntervalSet is canonical and covers the union of its inputs.
    Statements only; proofs in Proofs/FixIsetProofs.v, FixIsetCover.v, SortInvariance.v, C01Top.v.
    Times are integer nanosecond ticks; us = 1000. *)
-From Verif Require Import Base.Prelude Model.Iset Proofs.FixIsetProofs Proofs.C01Top.
+From Verif Require Import Base.Prelude Model.Iset Proofs.FixIsetProofs Proofs.C01Top Proofs.C01Exact.
 
 (* 1. canonical for ALL inputs (unsorted, duplicated, nested, overlapping, touching, zero-length, inverted) *)
 Theorem C01_canonical : forall ss es, length ss = length es -> canonical (mk_iset ss es).
@@ -23,6 +23,25 @@ Theorem C01_cover_complete : forall ss es x,
   mem x (mk_iset ss es) = true \/ exists p, In p ss /\ p - us <= x <= p.
 Proof. exact mk_iset_cover_complete. Qed.
 Print Assumptions C01_cover_complete.
+
+(* 3'. EXACT form of 3, as the property states it: when no input is zero-length (start < end for every pair), the ONLY
+       points of the union that may be missing are the trimmed microsecond [p - 1us, p) before a GENUINE touching point p:
+       p ends one input and starts another, and no input straddles p. *)
+Theorem C01_cover_exact : forall ss es x,
+  length ss = length es -> proper_pairs ss es ->
+  mem x (combine ss es) = true ->
+  mem x (mk_iset ss es) = true \/ exists p, touching_point p (combine ss es) /\ p - us <= x < p.
+Proof. exact mk_iset_cover_exact. Qed.
+Print Assumptions C01_cover_exact.
+
+(* 3''. ... and with a zero-length input the exact form FAILS (the recorded finding: IntervalSet(start=[0,5], end=[10,5])
+        loses (4.999999, 5) although 5 is straddled by [0,10]); statement 3 above is what remains true there. *)
+Theorem C01_cover_exact_zero_length_refuted :
+  ~ (forall ss es x, length ss = length es -> pairs_ordered ss es ->
+       mem x (combine ss es) = true ->
+       mem x (mk_iset ss es) = true \/ exists p, touching_point p (combine ss es) /\ p - us <= x < p).
+Proof. exact mk_iset_cover_exact_needs_proper. Qed.
+Print Assumptions C01_cover_exact_zero_length_refuted.
 
 (* 4. a canonical set is a fixed point of the constructor (so re-entering it changes nothing) *)
 Theorem C01_fixed_point : forall A, canonical A -> mk_iset_pairs A = A.
